@@ -35,8 +35,8 @@ def run(ctx):
         "of the JSON text) and pdu (depth 0 / origin_server_ts 0 by offset; trusted, untrusted, with-event-ID, headered, "
         "SetUnsigned, already-redacted and EventBuilder.Build entry points); "
         "distinct = distinct (family, algorithm, type, kept top-level set, kept content set, kept nested set)"
-        % ("all 12 with the full lattice" if ctx.tier == "thorough"
-           else "offset 0 with the full lattice (pdu family: for 6 versions, one per event format x algorithm; the other "
+        % ("raw: all 12 with the full lattice; pdu: 0-5 full, 6-11 none/singles/all" if ctx.tier == "thorough"
+           else "offset 0 with the full lattice (for 6 versions, one per event format x algorithm; the other "
                 "10 none/singles/all), offsets 4 and 8 with none/singles/all, the other 9 offsets with the shape all"))
     ctx.notes["constants"] = "Redaction_gen_{raw,pdu}_%s.cfg" % ctx.tier
     for fam in ("raw", "pdu"):
